@@ -65,6 +65,8 @@ type Submission struct {
 type RecBeacon struct {
 	*tu.TestingBeaconNode
 	Subs []Submission
+	// LastEpoch is the epoch of the most recent DomainData call (signBeaconObject asks for the domain right before it signs)
+	LastEpoch phase0.Epoch
 	// FailSubmit makes every Submit* return an error (after recording)
 	FailSubmit bool
 }
@@ -125,6 +127,11 @@ func (b *RecBeacon) SubmitValidatorRegistration(pubkey []byte, feeRecipient bell
 		Note: hex.EncodeToString(pubkey) + ":" + hex.EncodeToString(feeRecipient[:])})
 }
 
+func (b *RecBeacon) DomainData(epoch phase0.Epoch, domain phase0.DomainType) (phase0.Domain, error) {
+	b.LastEpoch = epoch
+	return b.TestingBeaconNode.DomainData(epoch, domain)
+}
+
 // RecNet records every broadcast.
 type RecNet struct{ Msgs []*spectypes.SSVMessage }
 
@@ -138,12 +145,14 @@ type SignEvent struct {
 	DomainType phase0.DomainType
 	PK         []byte
 	Err        bool
+	Epoch      phase0.Epoch // epoch of the DomainData call that preceded the signature (= epoch of the slot handed to signBeaconObject)
 }
 
 // RecKM wraps the spec testing key manager (which holds all test shares) and records validator-key-share signatures.
 type RecKM struct {
 	spectypes.KeyManager
 	Signs []SignEvent
+	BN    *RecBeacon
 }
 
 func NewRecKM() *RecKM { return &RecKM{KeyManager: tu.NewTestingKeyManager()} }
@@ -151,7 +160,11 @@ func NewRecKM() *RecKM { return &RecKM{KeyManager: tu.NewTestingKeyManager()} }
 func (k *RecKM) SignBeaconObject(obj ssz.HashRoot, domain phase0.Domain, pk []byte, domainType phase0.DomainType) (spectypes.Signature, [32]byte, error) {
 	sig, r, err := k.KeyManager.SignBeaconObject(obj, domain, pk, domainType)
 	or, _ := obj.HashTreeRoot()
-	k.Signs = append(k.Signs, SignEvent{Root: r, ObjRoot: or, Domain: domain, DomainType: domainType, PK: append([]byte{}, pk...), Err: err != nil})
+	ev := SignEvent{Root: r, ObjRoot: or, Domain: domain, DomainType: domainType, PK: append([]byte{}, pk...), Err: err != nil}
+	if k.BN != nil {
+		ev.Epoch = k.BN.LastEpoch
+	}
+	k.Signs = append(k.Signs, ev)
 	return sig, r, err
 }
 
@@ -219,7 +232,15 @@ func ShareFor(ks *tu.TestKeySet, op spectypes.OperatorID) *spectypes.Share {
 
 // NewEnv mirrors operator/validator.SetupRunners for one role.
 func NewEnv(kind Kind, ks *tu.TestKeySet, op spectypes.OperatorID) *Env {
-	e := &Env{Kind: kind, KS: ks, OpID: op, BN: NewRecBeacon(), Net: &RecNet{}, KM: NewRecKM(), Log: nop}
+	return NewEnvWith(kind, ks, op, NewRecBeacon(), &RecNet{}, NewRecKM())
+}
+
+// NewEnvWith builds the runner around the given (possibly shared) mocks.
+func NewEnvWith(kind Kind, ks *tu.TestKeySet, op spectypes.OperatorID, bn *RecBeacon, net *RecNet, km *RecKM) *Env {
+	e := &Env{Kind: kind, KS: ks, OpID: op, BN: bn, Net: net, KM: km, Log: nop}
+	if km.BN == nil {
+		km.BN = bn
+	}
 	e.Share = ShareFor(ks, op)
 	bnet := spectypes.BeaconTestNetwork
 	vpk := e.Share.ValidatorPubKey
